@@ -144,14 +144,22 @@ func TestVerifEngineChild(t *testing.T) {
 	if len(wfault) == 2 {
 		signal.Ignore(syscall.SIGXFSZ)
 	}
+	wfRestore := func() {
+		wfm.Lock()
+		if wfOn {
+			syscall.Setrlimit(syscall.RLIMIT_FSIZE, &wfSaved)
+			wfOn = false
+		}
+		wfm.Unlock()
+	}
 	verifhook.SetHandler(func(point string, args ...any) {
 		if len(wfault) == 2 {
-			wfm.Lock()
-			if wfOn {
-				syscall.Setrlimit(syscall.RLIMIT_FSIZE, &wfSaved)
-				wfOn = false
+			// the limit ends at the next hook point of the SAME label (save.written when the write went through,
+			// run.finished when it failed and the target with it); hook points of other goroutines (module loading,
+			// other targets) must not end it early.  A load that fails has no further hook point: wfRestore() below.
+			if len(args) > 0 && fmt.Sprint(args[0]) == wfault[0] {
+				wfRestore()
 			}
-			wfm.Unlock()
 			defer func() {
 				// after this hook's own log line has been written
 				if point == "save.created" && len(args) > 0 && fmt.Sprint(args[0]) == wfault[0] {
@@ -218,6 +226,7 @@ func TestVerifEngineChild(t *testing.T) {
 		Builtins:    starlark.StringDict{"os": starlark_os.Module, "sh": starlark_sh.Module, "json": starlark_json.Module},
 		PreferIndex: mode == "gcindex" || mode == "loadindex",
 	})
+	wfRestore()
 	if err != nil {
 		rep.LoadErr = err.Error()
 		rep.Notes = append(rep.Notes, wfNotes...)
@@ -365,6 +374,7 @@ func TestVerifEngineChild(t *testing.T) {
 		rep.RunErr = errText(err)
 		rep.Ran = true
 	}
+	wfRestore()
 	verifhook.At("phase", "done")
 	rep.Notes = append(rep.Notes, wfNotes...)
 	write()
